@@ -24,7 +24,7 @@ func init() {
 			"(R04.3) the captured value of a global (GlobalInstance.Val/ValHi, stale once an engine owns the global) is read directly only by the accessor methods, the engines and the instantiation-time constant-expression evaluators (sound because C03 R03.2 admits only immutable imported globals there); " +
 			"(R04.4) every path that makes a table reachable from another instance records that instance in the table's keep-alive list under its mutex; (R04.5) index spaces are not mixed: the import section is indexed only by its own loop variable, and the index recorded for an imported function is the function-space index its consumers compare against the import count; " +
 			"(R04.6) after every lowered call every mutable global is re-read unconditionally; (R04.8) the Go side of instance-relative builtins (memory.grow, table.grow, ref.func, wait/notify, listeners) acts on the calling instance, not on the entry instance. " +
-			"(R04.9) the interpreter re-uses the frame for return_call_indirect only within the same instance; (R04.10) a store to an imported global reloads the other imported mutable globals, which may alias it (genuine compiler defect found and fixed); (R04.11) the reference of an imported function is the defining module's function instance (genuine compiler defect found and fixed: LookupFunction resolved to function 0 of the exporter); (R04.12) active element segments write every slot they cover – a `ref.null` initialiser is skipped on this tree (known finding, pinned by an existing unit test). " +
+			"(R04.9) the interpreter re-uses the frame for return_call_indirect only within the same instance; (R04.10) a store to an imported global reloads the other imported mutable globals, which may alias it (genuine compiler defect found and fixed); (R04.11) the reference of an imported function is the defining module's function instance (genuine compiler defect found and fixed: LookupFunction resolved to function 0 of the exporter); (R04.14) a method of GlobalInstance reads the captured value only after consulting the owning engine (genuine defect found and fixed: String printed the initial value for ever on the compiler); (R04.15) the i32 result of a constant expression used as a segment offset is converted to an unsigned value before any comparison or widening (genuine defect found and fixed: data segments at offsets ≥ 2^31 were refused); (R04.16) instantiation writes the active element segments before the active data segments (known finding: the order is reversed, so a trapping data segment leaves the element segments unapplied). (R04.12) active element segments write every slot they cover – a `ref.null` initialiser is skipped on this tree (known finding, pinned by an existing unit test). " +
 			"(R04.13) every nested call in the interpreter passes the running function's own instance as the calling module. NOT decided: visibility of writes through generated code, state after a failed instantiation.",
 		Rules: []core.Rule{
 			{ID: "R04.13", Template: "T-SIBLING", Text: "nested calls in the interpreter pass the running function's own instance as the calling module", Min: 1},
@@ -32,6 +32,9 @@ func init() {
 			{ID: "R04.10", Template: "T-MUSTPASS", Text: "a store to an imported global reloads the other imported mutable globals (genuine defect found and fixed)", Min: 1},
 			{ID: "R04.11", Template: "T-SIBLING", Text: "wazevo: the reference of an imported function is the defining module's function instance (genuine defect found and fixed)", Min: 1},
 			{ID: "R04.12", Template: "T-MUSTPASS", Text: "active element segments write every slot they cover, null initialisers included (known finding)", Min: 1},
+			{ID: "R04.14", Template: "T-CONSULT", Text: "GlobalInstance methods read the captured value only after consulting the owner (genuine defect found and fixed: String)", Min: 1},
+			{ID: "R04.15", Template: "T-REPR", Text: "i32 constant-expression results (segment offsets) are used as unsigned 32-bit values (genuine defect found and fixed)", Min: 2},
+			{ID: "R04.16", Template: "T-ORDER", Text: "instantiation applies active element segments before active data segments (known finding)", Min: 1},
 			{ID: "R04.1", Template: "T-WHOWRITES", Text: "import slots receive the exporter's object itself", Min: 3},
 			{ID: "R04.2", Template: "T-CONSULT", Text: "per-kind link-time type match is complete", Min: 9},
 			{ID: "R04.3", Template: "T-WHOCALLS", Text: "direct readers of GlobalInstance.Val/ValHi are the listed ones", Min: 1},
@@ -42,6 +45,8 @@ func init() {
 		},
 		Run: runC04,
 		Controls: []core.Control{
+			{Name: "global-string-prints-captured-value", File: "internal/wasm/store.go", Old: "\t\treturn fmt.Sprintf(\"global(%d)\", val)", New: "\t\treturn fmt.Sprintf(\"global(%d)\", g.Val)", Rule: "R04.14", Substr: "String"},
+			{Name: "data-offset-signed", File: "internal/wasm/store.go", Old: "\t\t\toffset := uint64(uint32(executeConstExpressionI32(m.Globals, &d.OffsetExpression)))\n\t\t\tif offset+uint64(len(d.Init)) > uint64(len(m.MemoryInstance.Buffer)) {", New: "\t\t\toffset := int(executeConstExpressionI32(m.Globals, &d.OffsetExpression))\n\t\t\tif offset < 0 || offset+len(d.Init) > len(m.MemoryInstance.Buffer) {", Rule: "R04.15", Substr: "offset"},
 			{Name: "tail-call-fallback-passes-callers-module", File: "internal/engine/interpreter/interpreter.go", Old: "\t\t\t\t// Revert to a normal call.\n\t\t\t\tce.callFunction(ctx, f.moduleInstance, tf)", New: "\t\t\t\t// Revert to a normal call.\n\t\t\t\tce.callFunction(ctx, m, tf)", Rule: "R04.13", Substr: "calling module"},
 			{Name: "tail-call-guard-compares-modules", File: "internal/engine/interpreter/interpreter.go", Old: "if tf.moduleInstance != f.moduleInstance {", New: "if tf.parent.source != f.parent.source {", Rule: "R04.9", Substr: "return_call_indirect"},
 			{Name: "aliased-globals-not-reloaded", File: "internal/engine/wazevo/frontend/lower.go", Old: "\t\tfor _, other := range c.mutableGlobalVariablesIndexes {\n\t\t\tif other != index && other < c.m.ImportGlobalCount {\n\t\t\t\t_ = c.getWasmGlobalValue(other, true)\n\t\t\t}\n\t\t}\n", New: "", Rule: "R04.10", Substr: "imported global"},
@@ -64,6 +69,7 @@ func init() {
 func runC04(c *core.Ctx) {
 	checkSharednessRelation(c, "R04.2")
 	checkRound2C04(c)
+	checkBaseline3C04(c)
 	checkInterpCallerInstance(c, "R04.13")
 	c.SSA()
 	wp := c.Pkg("internal/wasm")
